@@ -371,6 +371,7 @@ impl SimNet for SimNetwork {
                     Some("dup") => { dup = true; Self::fire(&mut g, "duplicate"); }
                     Some("delay") => { extra = 200 + mix(&[self.seed, seq]) % 800; Self::fire(&mut g, "delay"); }
                     Some("late") => { extra = 400_000; Self::fire(&mut g, "delivered_after_timeout"); }
+                    Some(x) if x.starts_with("slow:") => { extra = x[5..].parse().unwrap_or(0); Self::fire(&mut g, "slow_reply"); }
                     _ => {}
                 }
             }
